@@ -600,7 +600,7 @@ func Drive(propID, tier string) int {
 			unknown = append(unknown, vr)
 		}
 	}
-	var khits []string
+	khits := []string{}
 	for w := range knownHit {
 		khits = append(khits, w)
 	}
